@@ -22,6 +22,7 @@ EXPLANATION = (
     "Edge coverage between the walker and the error iterator (T1), arm tables of check_resolution and of the error "
     "iterator (T8), producer existence for policy errors (T3) and guard dominance of every check_resolution call (T5)."
 )
+EXPLANATION += " " + "Plus: the is_dynamic argument handed to check_resolution per edge kind, and the walker's own selection rules (shared with C15)."
 NOT_DECIDED = "the 'iff' as a whole (needs reachability over data); the wording of the reported referrer"
 CONFIGS = ["default", "nofastcheck"]  # thorough tier also analyses the build without fast_check / symbols
 ASSUMPTIONS = []
